@@ -63,9 +63,11 @@ fn main() {
     }
     // address-space cap: an engine loop that keeps writing must not take the machine down; an allocation failure
     // aborts the process and the driver treats it like a CPU-budget overrun (suspect, confirmed alone)
-    unsafe {
-        let lim = libc::rlimit { rlim_cur: mem_mb << 20, rlim_max: mem_mb << 20 };
-        libc::setrlimit(libc::RLIMIT_AS, &lim);
+    if mem_mb > 0 {
+        unsafe {
+            let lim = libc::rlimit { rlim_cur: mem_mb << 20, rlim_max: mem_mb << 20 };
+            libc::setrlimit(libc::RLIMIT_AS, &lim);
+        }
     }
     cx.open_log();
     core::install_panic_hook();
